@@ -9,6 +9,7 @@ order (the answer must not depend on what came before).
 """
 from __future__ import annotations
 
+import itertools
 import os
 
 from checks import gem_harness as gh
@@ -197,11 +198,155 @@ def run_batch(batch, role="equipment", user_mode="none", order="fwd"):
     return out
 
 
+# ------------------------------------------------------------------------------------------ histories with own requests first
+def run_after_requests(pre=(), primary=(1, 1), same_as=0, role="equipment"):
+    """The handler first issues own requests (answered by the peer, or running into T3); then the peer sends a primary whose system bytes
+    equal those of one of these finished requests (host and equipment count system bytes independently) or are fresh."""
+    out = {"v": [], "obs": []}
+    case = {"part": "after-requests", "pre": list(pre), "primary": list(primary), "same_as": same_as, "role": role}
+
+    def driver(s):
+        ep = gh.GemEndpoint(role)
+        h = ep.handler
+        if not ep.establish(s):
+            out["harness"] = f"could not establish communication: {ep.comm()} {ep.state()}"
+            return
+        used = []
+        for kind in pre:
+            res = {}
+
+            def req(res=res):
+                res["r"] = h.send_and_waitfor_response(h.stream_function(1, 1)())
+
+            t = vrt.Thread(target=req, name="local-request")
+            t.start()
+            s.settle()
+            mine = [f for f in ep.pump() if f["stype"] == 0 and (f["stream"], f["function"]) == (1, 1)]
+            if len(mine) != 1:
+                out["harness"] = f"own S1F1 not seen: {mine}"
+                return
+            used.append(mine[0]["system"])
+            if kind == "answered":
+                body = e5.enc(("L", [])) if role != "host" else e5.enc(("L", [("A", b"mdln"), ("A", b"1.0")]))
+                ep.conn.peer_send(e37.data(1, 2, False, mine[0]["system"], body))
+                s.settle()
+            else:
+                for _ in range(4):
+                    if "r" in res:
+                        break
+                    s.advance()
+            if "r" not in res:
+                out["harness"] = f"own request did not finish ({kind})"
+                return
+            if (res["r"] is None) != (kind == "timeout"):
+                out["harness"] = f"own request result unexpected for {kind}: {res['r']!r}"
+                return
+            ep.pump()
+        stream, function = primary
+        sysb = used[same_as - 1] if same_as else None
+        sysb = ep.send_primary(stream, function, True, b"", system=sysb)
+        s.settle()
+        frames = ep.pump()
+        mine = [f for f in frames if f["stype"] == 0 and f["system"] == sysb]
+        kinds = [(f["stream"], f["function"]) for f in mine]
+        inherited = callable(getattr(h, f"_on_s{stream:02d}f{function:02d}", None))
+        want = [(stream, function + 1), (stream, 0)] if inherited else [(9, 5)]
+        which = "fresh-system-bytes" if not same_as else f"system-bytes-of-own-{pre[same_as - 1]}-request"
+        if len(mine) != 1 or kinds[0] not in want:
+            out["v"].append((f"C08|primary-after-own-requests|reply-count={len(mine)}|{which}|{'callback' if inherited else 'no-callback'}",
+                             {"case": case, "replies": [e37.brief(f) for f in mine], "queues": len(getattr(h.protocol, "_response_queues", {}) or {})}))
+        if ep.comm() != "COMMUNICATING":
+            out["v"].append(("C08|left-communicating-after-message|after-requests", {"case": case}))
+
+    sched = vrt.run(driver, max_steps=2_000_000, max_time=1e7, line_points=False)
+    if sched.harness_failure or sched.driver_exception:
+        out["harness"] = (sched.harness_failure or sched.driver_exception)[-1500:]
+    elif sched.outcome != "done":
+        out["v"].append((f"C08|execution-{sched.outcome}|{role}|after-requests", {"info": sched.deadlock_info, "case": case}))
+    return out
+
+
+# ------------------------------------------------------------------------------------------ schedules around one primary
+REGION = [
+    "secsgem.common.protocol:Protocol.send_message",
+    "secsgem.common.protocol:Protocol.send_response",
+    "secsgem.common.protocol:Protocol._dispatch_block",
+    "secsgem.common.protocol:Protocol._on_connection_data_received",
+    "secsgem.common.protocol:Protocol._process_data",
+    "secsgem.hsms.protocol:HsmsProtocol._process_send_queue",
+    "secsgem.hsms.protocol:HsmsProtocol._process_received_data",
+    "secsgem.hsms.protocol:HsmsProtocol._on_connection_message_received",
+    "secsgem.common.protocol_dispatcher:ProtocolDispatcher.*",
+    "secsgem.common.block_send_info:BlockSendInfo.*",
+]
+
+
+def run_sched(devs, budgets, role="equipment", msgs=((1, 1),), split=False):
+    """One or two primaries (with callback / without) delivered in one or two segments; every schedule with <= K delays of the connection
+    receiver, protocol receiver and dispatcher threads (line granularity in REGION) - each primary gets exactly one reply."""
+    box = {}
+
+    def driver(s):
+        s.line_points = False
+        s.frozen = True  # reaching COMMUNICATING is set-up: default schedule
+        ep = gh.GemEndpoint(role)
+        h = ep.handler
+        if not ep.establish(s):
+            box["harness"] = f"could not establish communication: {ep.comm()} {ep.state()}"
+            return
+        s.frozen = False
+        s.line_points = True
+        sysbs = []
+        data = b""
+        for i, (stream, function) in enumerate(msgs):
+            sysb = 0x6100 + i
+            sysbs.append(sysb)
+            data += e37.data(stream, function, True, sysb, b"")
+        if split:
+            ep.conn.peer_send(data[:17])
+            ep.conn.peer_send(data[17:])
+        else:
+            ep.conn.peer_send(data)
+        s.settle()
+        s.line_points = False
+        s.frozen = True
+        frames = ep.pump()
+        box["replies"] = [[(f["stream"], f["function"]) for f in frames if f["stype"] == 0 and f["system"] == x] for x in sysbs]
+        box["comm"] = ep.comm()
+        box["wire_order"] = [f["system"] & 0xFF for f in frames if f["stype"] == 0]
+        h.disable()
+
+    sched = vrt.run(driver, devs, budgets, max_steps=2_000_000, max_time=1e7, line_points=True)
+    res = {"trace": sched.trace, "v": []}
+    case = {"part": "sched", "role": role, "msgs": [list(m) for m in msgs], "split": split}
+    if sched.harness_failure or sched.driver_exception or box.get("harness"):
+        res["harness"] = (sched.harness_failure or sched.driver_exception or box.get("harness"))[-1200:]
+        res["obs"] = None
+        return res
+    if sched.outcome != "done":
+        res["v"].append((f"C08|schedule|execution-{sched.outcome}|{role}", {"case": case, "info": sched.deadlock_info}))
+        res["obs"] = sched.outcome
+        return res
+    res["obs"] = {"replies": box["replies"], "comm": box["comm"], "wire_order": box["wire_order"]}
+    for (stream, function), rep in zip(msgs, box["replies"]):
+        want = [(stream, function + 1), (stream, 0)] if (stream, function) == (1, 1) else [(9, 5)]
+        if len(rep) != 1 or rep[0] not in want:
+            res["v"].append((f"C08|schedule|reply-count={len(rep)}|{role}|{'callback' if (stream, function) == (1, 1) else 'no-callback'}",
+                             {"case": case, "replies": box["replies"]}))
+    return res
+
+
 def _catalogued(h, stream, function):
     return h.settings.streams_functions.function(stream, function) is not None
 
 
 def check_case(case):
+    if case.get("part") == "after-requests":
+        res = run_after_requests(tuple(case["pre"]), tuple(case["primary"]), case["same_as"], case["role"])
+        v = res.get("v", [])
+        if res.get("harness"):
+            v = v + [("HARNESS|c08-after-requests", {"case": case, "trace": res["harness"]})]
+        return {"v": v, "nt": True, "cnt": {"messages": 1 + len(case["pre"])}}
     res = run_batch(case["batch"], case["role"], case.get("user_mode", "none"), case.get("order", "fwd"))
     v = res.get("v", [])
     if res.get("harness"):
@@ -212,6 +357,13 @@ def check_case(case):
 def cases(ctx):
     samples = sample_bodies()
     thorough = ctx.thorough
+    # (d) own requests first (answered / timed out), then a primary reusing their system bytes
+    for role in ("equipment", "host"):
+        for n in (1, 2) + ((3,) if thorough else ()):
+            for pre in itertools.product(("timeout", "answered"), repeat=n):
+                for primary in ((1, 1), (99, 1)):
+                    for same_as in range(0, n + 1):
+                        yield {"part": "after-requests", "role": role, "pre": list(pre), "primary": list(primary), "same_as": same_as}
     funcs_quick = [0, 1, 2, 3, 5, 11, 13, 15, 17, 33, 35, 37, 41, 63, 65, 127, 129, 253, 255]
     for role in ("equipment", "host"):
         # (a) header sweep, empty bodies
@@ -247,8 +399,34 @@ def run(ctx):
         "for a primary with a callback the reply may be function+1 or the stream's F0 (the statement allows both); body content is not constrained",
         "a callback that returns None is the application's decision not to answer (no reply expected)",
         "default schedule, settle after each message; equipment-initiated S5F1/S6F11 are acknowledged by the harness",
+        "part (d): the peer may reuse the system bytes of a finished (answered or timed-out) request of this side for its own primary; "
+        "part (e): one or two primaries under every schedule with <= K delays at line granularity of the dispatcher / send path",
     ]
+    # S part first (line tracing before any pool is forked)
+    from checks import hsms_harness as hh  # noqa: PLC0415
+    from mc import explore  # noqa: PLC0415
+
+    missing = hh.trace_region(REGION)
+    if missing:
+        ctx.note(f"not line-traced (not found): {missing}")
+    k = 3 if ctx.thorough else 2
+    sparts = []
+    strans = 0
+    for role in ("equipment", "host"):
+        for msgs, split in ((((1, 1),), False), (((99, 1),), False), (((1, 1), (99, 1)), False), (((1, 1), (1, 1)), True),
+                            (((99, 1), (1, 1), (99, 1)), True)):
+            st = explore.explore(ctx, run_sched, {"sched": k}, f"c08-sched-{role}-{msgs}-{split}", opts={"role": role, "msgs": msgs, "split": split}, chunk=8)
+            sparts.append({"role": role, "msgs": msgs, "split": split, "executions": st["executions"], "outcomes": st["distinct_outcomes"],
+                           "levels_completed": st["levels_completed"]})
+            strans += st["executions"]
+            if st["levels_completed"] < k:
+                ctx.exhaustive = False
+        if ctx.out_of_time():
+            break
+    ctx.setcov("schedule_explorations", sparts)
+    ctx.setcov("delay_bound", k)
     n = ctx.run_cases(check_case, cases(ctx), "c08", chunk=2)
+    n += strans
     msgs = ctx.cov.get("messages", 0)
     ctx.setcov("states", n)
     ctx.setcov("transitions", msgs)
@@ -259,6 +437,18 @@ def run(ctx):
 
 
 def replay(ctx, detail):
+    case = detail["case"]
+    if case.get("part") == "sched":
+        from checks import hsms_harness as hh  # noqa: PLC0415
+
+        hh.trace_region(REGION)
+        devs = {int(k): v for k, v in case.get("devs", {}).items()}
+        r = run_sched(devs, case.get("budgets", {}), role=case["role"], msgs=tuple(tuple(m) for m in case["msgs"]), split=case["split"])
+        print("replayed:", r.get("obs"))
+        ctx.evaluations += 1
+        for sig, d in r["v"]:
+            ctx.violation(sig, d)
+        return
     res = check_case(detail["case"])
     ctx.evaluations += 1
     for sig, d in res.get("v", ()):
